@@ -281,6 +281,99 @@ func runMachine(typ act.SupervisorType, ko bool, n, I, P int, pt pattern) {
 	runMachineS(typ, ko, act.SupervisorStrategyPermanent, n, I, P, pt)
 }
 
+// runMachineM: Permanent, management calls (DisableChild / EnableChild / StartChild / AddChild) interleaved
+// with the failures; the sliding-window reference ignores them
+func runMachineM(typ act.SupervisorType, ko bool, n, I, P int, pt pattern) {
+	withMgmt = true
+	runMachineS(typ, ko, act.SupervisorStrategyPermanent, n, I, P, pt)
+	withMgmt = false
+}
+
+var withMgmt bool
+var mgmtCount int64
+
+// expectedLive: every enabled spec runs one instance (simple-one-for-one: the tracked instance count)
+func expectedLive(sim *p08.Sim, sofo bool, sofoN int) int {
+	if sofo {
+		return sofoN
+	}
+	c, _ := sim.Children()
+	n := 0
+	for _, x := range c {
+		if x.Disabled == false {
+			n++
+		}
+	}
+	return n
+}
+
+// manage performs management calls before failure k; returns a violation text if one of them ends the supervisor
+func manage(sim *p08.Sim, rng *rand.Rand, k, I int, sofo bool, added *bool, events *int64) string {
+	disabled := -1
+	enabled := 0
+	if sofo == false {
+		c, _ := sim.Children()
+		for i, x := range c {
+			if x.Disabled {
+				disabled = i
+			} else {
+				enabled++
+			}
+		}
+	}
+	var ops []p08.Ev
+	last := len(sim.Names) - 1
+	switch {
+	case k == 0 && last >= 1:
+		// directed part: a spec is disabled before the first failure ...
+		ops = append(ops, p08.Ev{K: p08.EvDisable, S: last})
+	case k == I && sofo == false && disabled >= 0:
+		// ... and enabled again right before the failure that exceeds the limit in a burst
+		ops = append(ops, p08.Ev{K: p08.EvEnable, S: disabled})
+	case k == I && sofo && last >= 1:
+		ops = append(ops, p08.Ev{K: p08.EvEnable, S: last})
+	default:
+		switch rng.Intn(6) {
+		case 0:
+			if sofo == false && disabled >= 0 {
+				ops = append(ops, p08.Ev{K: p08.EvEnable, S: disabled})
+			}
+		case 1:
+			if sofo == false && enabled >= 2 && disabled < 0 {
+				ops = append(ops, p08.Ev{K: p08.EvDisable, S: rng.Intn(len(sim.Names))})
+			} else if sofo && last >= 1 {
+				ops = append(ops, p08.Ev{K: p08.EvDisable, S: last}, p08.Ev{K: p08.EvEnable, S: last})
+			}
+		case 2:
+			if sofo == false {
+				ops = append(ops, p08.Ev{K: p08.EvStart, S: rng.Intn(len(sim.Names))}) // running or disabled: an error, no effect
+			}
+		case 3:
+			if *added == false {
+				*added = true
+				ops = append(ops, p08.Ev{K: p08.EvAdd})
+			}
+		}
+	}
+	for _, op := range ops {
+		obs, ok := sim.Apply(op)
+		if ok == false {
+			continue
+		}
+		mgmtCount++
+		*events += int64(obs.Calls)
+		if obs.Panic != nil {
+			return fmt.Sprintf("%s: state machine panicked: %v", op, obs.Panic)
+		}
+		_, steps := drain(sim, rng)
+		*events += steps
+		if sim.Dead {
+			return fmt.Sprintf("%s ended the supervisor (%v)", op, sim.DeadReason)
+		}
+	}
+	return ""
+}
+
 // runMachineS: with Transient / Temporary the failure pattern is mixed with terminations that need no restart
 func runMachineS(typ act.SupervisorType, ko bool, st act.SupervisorStrategy, n, I, P int, pt pattern) {
 	cfg := machineCfg(typ, ko, st, n, I, P)
@@ -292,6 +385,11 @@ func runMachineS(typ act.SupervisorType, ko bool, st act.SupervisorStrategy, n, 
 	if mixed {
 		kos += "/" + p08.StrategyShort(st) + "-mixed"
 	}
+	mgmt := withMgmt
+	if mgmt {
+		kos += "/mgmt"
+	}
+	added := false
 	id := fmt.Sprintf("A2/%s%s/n=%d/I=%d/P=%d/%s", p08.TypeShort(typ), kos, n, I, P, pt.name)
 	if !hk.Want(id) {
 		return
@@ -328,9 +426,16 @@ func runMachineS(typ act.SupervisorType, ko bool, st act.SupervisorStrategy, n, 
 		}
 		sim.Sup.AgeRestarts(gap)
 		w.age(gap)
+		if mgmt {
+			if vt := manage(sim, rng, k, I, sofo, &added, &events); vt != "" {
+				viol = append(viol, fmt.Sprintf("before failure %d: %s", k, vt))
+				sig = "management-call-ends-supervisor:" + fam
+				break
+			}
+		}
 		live := sim.Live(-1)
-		if len(live) != n {
-			viol = append(viol, fmt.Sprintf("before failure %d only %d of %d children are running", k, len(live), n))
+		if want := expectedLive(sim, sofo, n); len(live) != want || want == 0 {
+			viol = append(viol, fmt.Sprintf("before failure %d %d children are running, %d enabled specs", k, len(live), want))
 			sig = "not-restarted-below-limit:" + fam
 			break
 		}
@@ -451,6 +556,10 @@ func runMachineS(typ act.SupervisorType, ko bool, st act.SupervisorStrategy, n, 
 	}
 	scenario := "A2-machines-virtual-clock"
 	nontrivial := left
+	if mgmt {
+		scenario = "A2-machines-with-management-calls"
+		nontrivial = true // a DisableChild precedes the first failure, an EnableChild the (Intensity+1)-th
+	}
 	if mixed {
 		scenario = "A2-machines-mixed-with-no-restart-terminations"
 		nontrivial = true // every such sequence contains terminations that must not be counted (k == 0 forces one)
@@ -466,14 +575,26 @@ const guardMs = 200
 type liveFail struct{ lo, hi int64 } // the supervisor read its clock for this failure within [lo, hi]
 
 func runLive(node *hk.HNode, driver gen.PID, name string, typ act.SupervisorType, n, I int, gapsMs []int) {
-	runLiveS(node, driver, name, typ, act.SupervisorStrategyPermanent, n, I, gapsMs)
+	runLiveS(node, driver, name, typ, act.SupervisorStrategyPermanent, n, I, 1, gapsMs)
 }
 
-func runLiveS(node *hk.HNode, driver gen.PID, name string, typ act.SupervisorType, st act.SupervisorStrategy, n, I int, gapsMs []int) {
+// runLiveS: cfgI / cfgP are the configured values; 0 means "left unset": the documented default (5) applies to that field only
+func runLiveS(node *hk.HNode, driver gen.PID, name string, typ act.SupervisorType, st act.SupervisorStrategy, n, cfgI, cfgP int, gapsMs []int) {
+	I, P := cfgI, cfgP
+	if I == 0 {
+		I = 5
+	}
+	if P == 0 {
+		P = 5
+	}
+	periodMs := int64(P) * 1000
 	mixed := st != act.SupervisorStrategyPermanent
 	id := fmt.Sprintf("B/%s/n=%d/I=%d/%s", p08.TypeShort(typ), n, I, name)
 	if mixed {
 		id = fmt.Sprintf("B/%s/%s-mixed/n=%d/I=%d/%s", p08.TypeShort(typ), p08.StrategyShort(st), n, I, name)
+	}
+	if cfgI == 0 || cfgP != 1 {
+		id = fmt.Sprintf("B/%s/n=%d/cfgI=%d/cfgP=%d/%s", p08.TypeShort(typ), n, cfgI, cfgP, name)
 	}
 	if !hk.Want(id) {
 		return
@@ -482,7 +603,7 @@ func runLiveS(node *hk.HNode, driver gen.PID, name string, typ act.SupervisorTyp
 	if typ == act.SupervisorTypeAllForOne || typ == act.SupervisorTypeRestForOne {
 		fam = "ARFO"
 	}
-	cfg := p08.Cfg{Type: typ, Strategy: st, N: n, DAS: mixed, Intensity: uint16(I), Period: 1}
+	cfg := p08.Cfg{Type: typ, Strategy: st, N: n, DAS: mixed, Intensity: uint16(cfgI), Period: uint16(cfgP)}
 	var viol []string
 	sig, incon := "", ""
 	left := false
@@ -582,9 +703,9 @@ func runLiveS(node *hk.HNode, driver gen.PID, name string, typ act.SupervisorTyp
 		hi := time.Now().UnixMilli()
 		certainIn, certainOut := 0, 0
 		for _, f := range fails {
-			if hi-f.lo <= 1000-guardMs {
+			if hi-f.lo <= periodMs-guardMs {
 				certainIn++
-			} else if lo-f.hi >= 1000+guardMs {
+			} else if lo-f.hi >= periodMs+guardMs {
 				certainOut++
 			}
 		}
@@ -600,7 +721,7 @@ func runLiveS(node *hk.HNode, driver gen.PID, name string, typ act.SupervisorTyp
 		case minCount > I:
 			if dead == false {
 				sig = "keeps-restarting-beyond-limit:" + fam
-				viol = append(viol, fmt.Sprintf("failure %d: %d earlier restarts lie within the last second (measured, guard %d ms), Intensity %d, but the supervisor is alive and restarted the child", k, certainIn, guardMs, I))
+				viol = append(viol, fmt.Sprintf("failure %d: %d earlier restarts lie within the last %d s (measured, guard %d ms), Intensity %d (configured Intensity=%d Period=%d, 0 = default 5), but the supervisor is alive and restarted the child", k, certainIn, P, guardMs, I, cfgI, cfgP))
 			} else {
 				if base(reason) != act.ErrSupervisorRestartsExceeded {
 					sig = "give-up-reason-not-restarts-exceeded:" + fam
@@ -619,7 +740,7 @@ func runLiveS(node *hk.HNode, driver gen.PID, name string, typ act.SupervisorTyp
 		case maxCount <= I:
 			if dead {
 				sig = "gives-up-early:" + fam
-				viol = append(viol, fmt.Sprintf("failure %d: at most %d earlier restarts can lie within the last second (measured), Intensity %d, but the supervisor terminated with %q", k, certainIn+uncertain, I, fmt.Sprint(reason)))
+				viol = append(viol, fmt.Sprintf("failure %d: at most %d earlier restarts can lie within the last %d s (measured), Intensity %d (configured Intensity=%d Period=%d, 0 = default 5), but the supervisor terminated with %q", k, certainIn+uncertain, P, I, cfgI, cfgP, fmt.Sprint(reason)))
 			}
 		default:
 			incon = fmt.Sprintf("decisive gap within +-%d ms of the period boundary at failure %d", guardMs, k)
@@ -654,7 +775,7 @@ func base(e error) error {
 
 func main() {
 	hk.InstallHook()
-	hk.Rule("A1: Intensity 1..8 x Period 1..5 x failure patterns (burst; bursts separated by Period-2ms/-1ms/exactly Period/+1ms/2 Periods; slow drip; tight drip; half burst then drip; seeded PRNG gaps) on supCheckRestartIntensity under a virtual clock; A2: the same patterns through the one-for-one, all/rest-for-one (with and without KeepOrder) and simple-one-for-one state machines with 1..3 children, a random running child fails each time, requested exits are delivered in random order; with Permanent every failure needs a restart, with Transient and Temporary (DisableAutoShutdown, child started again with StartChild) each failure is preceded by 0..2 seeded terminations that need no restart (normal/shutdown exits; any exit of a Temporary child), which the sliding-window reference does not count (those cases are non-trivial by construction); B: live supervisors, Period 1 s, Intensity 1..3, failures induced at real times. One case per sequence; non-trivial iff at least one counted restart had left the window before the last failure of the sequence (measured: tells a sliding window from a counter); distinct = layer x machine x pattern class x left-window")
+	hk.Rule("A1: Intensity 1..8 x Period 1..5 x failure patterns (burst; bursts separated by Period-2ms/-1ms/exactly Period/+1ms/2 Periods; slow drip; tight drip; half burst then drip; seeded PRNG gaps) on supCheckRestartIntensity under a virtual clock; A2: the same patterns through the one-for-one, all/rest-for-one (with and without KeepOrder) and simple-one-for-one state machines with 1..3 children, a random running child fails each time, requested exits are delivered in random order; with Permanent every failure needs a restart, with Transient and Temporary (DisableAutoShutdown, child started again with StartChild) each failure is preceded by 0..2 seeded terminations that need no restart (normal/shutdown exits; any exit of a Temporary child), which the sliding-window reference does not count (those cases are non-trivial by construction); with Permanent and 2..3 children also with management calls interleaved (DisableChild before the first failure, EnableChild before the (Intensity+1)-th, seeded StartChild/AddChild/Disable/Enable elsewhere), which the reference ignores; B: live supervisors, Period 1 s, Intensity 1..3, failures induced at real times, plus supervisors with exactly one of Intensity/Period left unset (default 5 for that field only: Intensity 2 and 3 with Period unset, Intensity unset with Period 1 s). One case per sequence; non-trivial iff at least one counted restart had left the window before the last failure of the sequence (measured: tells a sliding window from a counter); distinct = layer x machine x pattern class x left-window")
 	hk.Assume("virtual clock: between failures every recorded timestamp is moved into the past (VerifSup.AgeRestarts / ageing the list passed to the function), which is equivalent to the wall clock advancing; the clock value of a failure is read from the element the code appended and cross-checked with a wall-clock bracket around the call")
 	hk.Assume("layer B: the supervisor reads its clock between the moment the harness sends the kill command and the moment it sees quiescence again; gaps within 200 ms of the period boundary are inconclusive by rule")
 
@@ -719,6 +840,24 @@ func main() {
 		}
 	}
 	hk.Stat("terminations_needing_no_restart_injected", benignCount)
+	// Permanent with management calls between the failures (they must not touch the restart history)
+	for _, m := range mts {
+		for _, I := range Is {
+			for _, P := range Ps {
+				rng := hk.Rng("c09", "A2g", fmt.Sprint(m.typ, m.ko, I, P))
+				pts := patterns(I, P, rng, hk.Pick(1, 6))
+				for pi, pt := range pts {
+					for n := 2; n <= 3; n++ {
+						if hk.Thorough() == false && (pi+n+I+P)%3 != 0 && !(n == 2 && pi == 0) {
+							continue
+						}
+						runMachineM(m.typ, m.ko, n, I, P, pt)
+					}
+				}
+			}
+		}
+	}
+	hk.Stat("management_calls_interleaved", mgmtCount)
 	// Intensity / Period left zero: the defaults (5 restarts in 5 s) apply
 	for _, m := range mts {
 		for _, pt := range patterns(5, 5, hk.Rng("c09", "A2-default", fmt.Sprint(m.typ, m.ko)), 1) {
@@ -748,6 +887,8 @@ func main() {
 			n, I int
 			gaps []int
 			st   act.SupervisorStrategy
+			P    int // configured period (0 in the literal = 1 s unless defP is set)
+			defP bool
 		}
 		var cases []lc
 		rep := func(n, g int) []int {
@@ -769,13 +910,13 @@ func main() {
 				typ act.SupervisorType
 				n   int
 			}{{act.SupervisorTypeOneForOne, 1}, {act.SupervisorTypeOneForOne, 2}, {act.SupervisorTypeAllForOne, 2}, {act.SupervisorTypeRestForOne, 3}, {act.SupervisorTypeSimpleOneForOne, 2}} {
-				cases = append(cases, lc{"burst", t.typ, t.n, I, rep(I+2, 0), act.SupervisorStrategyPermanent})
-				cases = append(cases, lc{"bursts-sep-1.4s", t.typ, t.n, I, cat(rep(I, 0), []int{1400}, rep(I+2, 0)), act.SupervisorStrategyPermanent})
+				cases = append(cases, lc{name: "burst", typ: t.typ, n: t.n, I: I, gaps: rep(I+2, 0), st: act.SupervisorStrategyPermanent})
+				cases = append(cases, lc{name: "bursts-sep-1.4s", typ: t.typ, n: t.n, I: I, gaps: cat(rep(I, 0), []int{1400}, rep(I+2, 0)), st: act.SupervisorStrategyPermanent})
 				if hk.Thorough() || t.n <= 2 {
-					cases = append(cases, lc{"drip-1.3s-then-burst", t.typ, t.n, I, cat([]int{0}, rep(2, 1300), rep(I+2, 0)), act.SupervisorStrategyPermanent})
+					cases = append(cases, lc{name: "drip-1.3s-then-burst", typ: t.typ, n: t.n, I: I, gaps: cat([]int{0}, rep(2, 1300), rep(I+2, 0)), st: act.SupervisorStrategyPermanent})
 				}
 				if I >= 2 {
-					cases = append(cases, lc{"drip-0.65s", t.typ, t.n, I, cat([]int{0}, rep(4, 650), rep(I+2, 0)), act.SupervisorStrategyPermanent})
+					cases = append(cases, lc{name: "drip-0.65s", typ: t.typ, n: t.n, I: I, gaps: cat([]int{0}, rep(4, 650), rep(I+2, 0)), st: act.SupervisorStrategyPermanent})
 				}
 			}
 		}
@@ -785,14 +926,26 @@ func main() {
 				typ act.SupervisorType
 				n   int
 			}{{act.SupervisorTypeOneForOne, 2}, {act.SupervisorTypeOneForOne, 1}, {act.SupervisorTypeAllForOne, 2}, {act.SupervisorTypeSimpleOneForOne, 2}} {
-				cases = append(cases, lc{"burst", t.typ, t.n, I, rep(I+2, 0), act.SupervisorStrategyTransient})
+				cases = append(cases, lc{name: "burst", typ: t.typ, n: t.n, I: I, gaps: rep(I+2, 0), st: act.SupervisorStrategyTransient})
 				if hk.Thorough() || t.n == 2 {
-					cases = append(cases, lc{"bursts-sep-1.4s", t.typ, t.n, I, cat(rep(I, 0), []int{1400}, rep(I+2, 0)), act.SupervisorStrategyTransient})
+					cases = append(cases, lc{name: "bursts-sep-1.4s", typ: t.typ, n: t.n, I: I, gaps: cat(rep(I, 0), []int{1400}, rep(I+2, 0)), st: act.SupervisorStrategyTransient})
 				}
 				if I == 1 || hk.Thorough() {
-					cases = append(cases, lc{"burst", t.typ, t.n, I, rep(I+3, 0), act.SupervisorStrategyTemporary})
+					cases = append(cases, lc{name: "burst", typ: t.typ, n: t.n, I: I, gaps: rep(I+3, 0), st: act.SupervisorStrategyTemporary})
 				}
 			}
+		}
+		// exactly one of Intensity / Period left unset: the default applies to that field only
+		for _, t := range []struct {
+			typ act.SupervisorType
+			n   int
+		}{{act.SupervisorTypeOneForOne, 1}, {act.SupervisorTypeAllForOne, 2}, {act.SupervisorTypeSimpleOneForOne, 2}} {
+			PP := act.SupervisorStrategyPermanent
+			// Intensity 2 / 3, Period unset (5 s): the 3rd / 4th crash of a burst gives up
+			cases = append(cases, lc{name: "period-unset-burst", typ: t.typ, n: t.n, I: 2, gaps: rep(4, 0), st: PP, defP: true})
+			cases = append(cases, lc{name: "period-unset-burst", typ: t.typ, n: t.n, I: 3, gaps: rep(5, 0), st: PP, defP: true})
+			// Intensity unset (5), Period 1 s: five crashes, 1.5 s pause, the next crash is restarted; the 6th of the second burst gives up
+			cases = append(cases, lc{name: "intensity-unset-burst-pause-burst", typ: t.typ, n: t.n, I: 0, gaps: cat(rep(5, 0), []int{1500}, rep(6, 0)), st: PP, P: 1})
 		}
 		var wg sync.WaitGroup
 		sem := make(chan struct{}, 24)
@@ -803,7 +956,11 @@ func main() {
 			go func() {
 				defer wg.Done()
 				defer func() { <-sem }()
-				runLiveS(node, driver, c.name, c.typ, c.st, c.n, c.I, c.gaps)
+				P := c.P
+				if P == 0 && c.defP == false {
+					P = 1
+				}
+				runLiveS(node, driver, c.name, c.typ, c.st, c.n, c.I, P, c.gaps)
 			}()
 		}
 		wg.Wait()
